@@ -643,6 +643,8 @@ def run(ctx):
         tests = [i for i in f.all_nodes() if f.N(i)['k'] == 'BinaryOperator' and f.N(i).get('op') in ('==', '!=') and any(f.const_value(x) == -1 for x in f.N(i)['ch'])]
         ctx.check(not bad and all(cp_ in f.subtree_refs(i) for i in tests), R12, '%s::overflow:EOF-tested-on-the-int' % (f.record or '?').rsplit('::', 1)[-1],
                   'the overflowing character is compared with EOF after narrowing to char: byte 0xFF is dropped', f.loc(bad[0]) if bad else f.where)
+        dr_ = q.overflow_drops_char(f)
+        ctx.check(not dr_, R12, '%s::overflow:takes-the-character' % (f.record or '?').rsplit('::', 1)[-1], 'overflow(c) can report success without having taken c (neither stored, put nor handed on, and c was not EOF): the byte that did not fit is lost', f.loc(dr_[0]) if dr_ else f.where)
     # the embedded server's watchdog: progress of an asynchronous write counts as activity, not only its completion
     owp = [g for g in P.fns.values() if g.short == 'on_async_write_progress' and (g.record or '').endswith('cgi::http') and g.body is not None]
     if owp:
